@@ -67,6 +67,7 @@ package webrtc
 //@ field PeerConnection.updateNegotiationNeededFlagOnEmptyChain props C01 C02 C03 C21 C39 writers (*API).NewPeerConnection
 //@ field PeerConnection.ops props C01 C02 C03 C21 C39 writers (*API).NewPeerConnection
 //@ field PeerConnection.api props C01 C02 C03 C21 C39 writers (*API).NewPeerConnection
+//@ field PeerConnection.idpLoginURL props C21 writers (*API).NewPeerConnection
 //@ field PeerConnection.log props C01 C02 C03 C21 C39 writers (*API).NewPeerConnection
 //@ field API.settingEngine props C01 C13 writers NewAPI, WithSettingEngine$1, (*API).NewPeerConnection
 //@ field API.mediaEngine props C01 writers NewAPI, WithMediaEngine$1, (*API).NewPeerConnection
@@ -124,7 +125,7 @@ package webrtc
 //@ func (*PeerConnection).updateConnectionState
 //@ props C22 C21
 //@ requires pcValid(pc)
-//@ requires validICEConnectionState(iceConnectionState) && validDTLSTransportState(dtlsTransportState)
+//@ requires pc.isClosed.Load() || (validICEConnectionState(iceConnectionState) && validDTLSTransportState(dtlsTransportState))
 //@ observe old(pc.isClosed.Load())
 //@ observe old(pc.ConnectionState())
 //@ ensures pc.ConnectionState() == specConnState(old(pc.isClosed.Load()), iceConnectionState, dtlsTransportState)
@@ -235,3 +236,93 @@ package webrtc
 //@ ensures origin.SessionVersion != 0 ==> origin.SessionID != 0
 //@ modifies origin.SessionVersion, origin.SessionID, descr.Origin.SessionVersion, descr.Origin.SessionID
 //@ loop 0 invariant origin.SessionVersion == old(origin.SessionVersion) && origin.SessionID == old(origin.SessionID) && descr.Origin.SessionVersion == old(descr.Origin.SessionVersion)
+
+// ---------------------------------------------------------------- C21 (finality of Close)
+// The closed flag lives in the atomic.Bool that pc.isClosed points to: only close writes it.
+//@ field PeerConnection.isClosed* props C21 C22 writers (*PeerConnection).close
+//@ field PeerConnection.connectionState props C21 C22 writers (*PeerConnection).onConnectionStateChange, (*API).NewPeerConnection
+//@ field PeerConnection.sctpTransport props C21 writers (*API).NewPeerConnection
+//@ field PeerConnection.dtlsTransport props C21 writers (*API).NewPeerConnection
+
+// After close: the flag is set (and only ever set); on the first close the signaling
+// state is closed and the connection state is the W3C aggregate for closed, i.e. closed.
+//@ func (*PeerConnection).close #first
+//@ props C21
+//@ nosafety
+//@ requires pcValid(pc) && pc.sctpTransport != nil && pc.dtlsTransport != nil && !pc.isClosed.Load()
+//@ ensures pc.isClosed.Load()
+//@ ensures pc.signalingState == SignalingStateClosed && pc.ConnectionState() == PeerConnectionStateClosed
+
+//@ func (*PeerConnection).close #again
+//@ props C21
+//@ nosafety
+//@ prune
+//@ requires pcValid(pc) && pc.sctpTransport != nil && pc.dtlsTransport != nil && pc.isClosed.Load()
+//@ ensures pc.isClosed.Load()
+//@ ensures pc.signalingState == old(pc.signalingState) && ghost(connEvents) == old(ghost(connEvents)) && ghost(sigEvents) == old(ghost(sigEvents))
+//@ ensures pc.ConnectionState() == old(pc.ConnectionState())
+
+// Every mutating entry point refuses a closed connection with an InvalidStateError
+// and leaves the negotiation state, the configuration and the closed flag alone.
+//@ func (*PeerConnection).CreateOffer #closed
+//@ props C21
+//@ nosafety
+//@ prune
+//@ requires pcValid(pc) && pc.isClosed.Load()
+//@ ensures old(pc.isClosed.Load()) ==> istype(err, *rtcerr.InvalidStateError) && pc.signalingState == old(pc.signalingState) && pc.lastOffer == old(pc.lastOffer) && pc.isClosed.Load()
+
+//@ func (*PeerConnection).CreateAnswer #closed
+//@ props C21
+//@ nosafety
+//@ prune
+//@ requires pcValid(pc) && pc.isClosed.Load()
+//@ ensures old(pc.isClosed.Load()) ==> istype(err, *rtcerr.InvalidStateError) && pc.signalingState == old(pc.signalingState) && pc.lastAnswer == old(pc.lastAnswer) && pc.isClosed.Load()
+
+//@ func (*PeerConnection).SetLocalDescription #closed
+//@ props C21
+//@ nosafety
+//@ prune
+//@ requires pcValid(pc) && pc.isClosed.Load()
+//@ ensures old(pc.isClosed.Load()) ==> istype(err, *rtcerr.InvalidStateError) && pc.signalingState == old(pc.signalingState) && pc.pendingLocalDescription == old(pc.pendingLocalDescription) && pc.currentLocalDescription == old(pc.currentLocalDescription) && pc.isClosed.Load()
+
+//@ func (*PeerConnection).SetRemoteDescription #closed
+//@ props C21
+//@ nosafety
+//@ prune
+//@ requires pcValid(pc) && pc.isClosed.Load()
+//@ ensures old(pc.isClosed.Load()) ==> istype(err, *rtcerr.InvalidStateError) && pc.signalingState == old(pc.signalingState) && pc.pendingRemoteDescription == old(pc.pendingRemoteDescription) && pc.currentRemoteDescription == old(pc.currentRemoteDescription) && pc.isClosed.Load()
+
+//@ func (*PeerConnection).AddTrack #closed
+//@ props C21
+//@ nosafety
+//@ prune
+//@ requires pcValid(pc) && pc.isClosed.Load()
+//@ ensures old(pc.isClosed.Load()) ==> istype(err, *rtcerr.InvalidStateError) && ret0 == nil && len(pc.rtpTransceivers) == old(len(pc.rtpTransceivers)) && pc.isClosed.Load()
+
+//@ func (*PeerConnection).RemoveTrack #closed
+//@ props C21
+//@ nosafety
+//@ prune
+//@ requires pcValid(pc) && pc.isClosed.Load()
+//@ ensures old(pc.isClosed.Load()) ==> istype(err, *rtcerr.InvalidStateError) && pc.isClosed.Load()
+
+//@ func (*PeerConnection).AddTransceiverFromKind #closed
+//@ props C21
+//@ nosafety
+//@ prune
+//@ requires pcValid(pc) && pc.isClosed.Load()
+//@ ensures old(pc.isClosed.Load()) ==> istype(err, *rtcerr.InvalidStateError) && len(pc.rtpTransceivers) == old(len(pc.rtpTransceivers)) && pc.isClosed.Load()
+
+//@ func (*PeerConnection).AddTransceiverFromTrack #closed
+//@ props C21
+//@ nosafety
+//@ prune
+//@ requires pcValid(pc) && pc.isClosed.Load()
+//@ ensures old(pc.isClosed.Load()) ==> istype(err, *rtcerr.InvalidStateError) && len(pc.rtpTransceivers) == old(len(pc.rtpTransceivers)) && pc.isClosed.Load()
+
+//@ func (*PeerConnection).CreateDataChannel #closed
+//@ props C21
+//@ nosafety
+//@ prune
+//@ requires pcValid(pc) && pc.isClosed.Load()
+//@ ensures old(pc.isClosed.Load()) ==> istype(err, *rtcerr.InvalidStateError) && ret0 == nil && pc.isClosed.Load()
